@@ -292,9 +292,127 @@ static std::string step_ras(const std::vector<std::string>& w) {
   return out;
 }
 
+// civ <env 0|1> <win 0|1> <callee ccid> <flags> <local size> <local align> <tid=op,...>
+//   A real x86::Compiler function `void f(void)` (cdecl of that environment) with a live local buffer (new_stack) that INVOKES a callee
+//   of convention <ccid> (after harness/c06.cpp `iv`): op = i<hex> immediate | r<tid> fresh GP register | v<tid> fresh vector register.
+//   flags: bit1 avx, bit2 avx512, bit3 preserved frame pointer.
+//   -> ok <css> <csa> <lso> <lss> <fss> <final align> <da> <invoke arg_stack_size> | <off:size ...>
+//      the frame as the register allocator left it and every store through sp (offset >= 0) the lowering emitted between the function's
+//      own initialisation and the `call` (the harness's own stores into the local buffer are excluded)
+static std::string step_civ(const std::vector<std::string>& w) {
+  uint64_t arch_i, win, ccid, flags, lsize, lalign;
+  if (w.size() != 8 || !vh::parse_u64(w[1], arch_i) || !vh::parse_u64(w[2], win) || !vh::parse_u64(w[3], ccid) || !vh::parse_hex(w[4], flags) ||
+      !vh::parse_u64(w[5], lsize) || !vh::parse_u64(w[6], lalign) || arch_i > 1 || ccid > 255) return "bad-op";
+  bool is64 = arch_i == 1;
+  Environment env(is64 ? Arch::kX64 : Arch::kX86, SubArch::kUnknown, Vendor::kUnknown, win ? Platform::kWindows : Platform::kLinux,
+                  win ? PlatformABI::kMSVC : PlatformABI::kGNU);
+  CodeHolder code;
+  code.init(env);
+  x86::Compiler cc(&code);
+  FuncNode* fn = nullptr;
+  FuncSignature fsig(CallConvId::kCDecl);
+  fsig.set_ret(TypeId::kVoid);
+  Error e = cc.add_func_node(Out<FuncNode*>(fn), fsig);
+  if (e != Error::kOk) return "err " + err_name(e);
+  if (flags & 2) fn->frame().set_avx_enabled();
+  if (flags & 4) fn->frame().set_avx512_enabled();
+  if (flags & 8) fn->frame().set_preserved_fp();
+  x86::Mem loc;
+  if (lsize) {
+    loc = cc.new_stack(uint32_t(lsize), uint32_t(lalign ? lalign : 1));
+    x86::Mem m = loc; m.set_size(1);
+    cc.emit(x86::Inst::kIdMov, m, Imm(0x5A));
+    cc.cursor()->set_user_data_as_uint64(7);
+  }
+  cc.emit(x86::Inst::kIdNop);
+  FuncSignature sig{CallConvId(ccid)};
+  sig.set_ret(TypeId::kVoid);
+  std::vector<Operand> ops;
+  std::vector<std::string> args = w[7] == "-" ? std::vector<std::string>() : split(w[7], ',');
+  for (size_t i = 0; i < args.size(); i++) {
+    const std::string& a = args[i];
+    size_t eq = a.find('=');
+    uint64_t tid;
+    if (eq == std::string::npos || eq + 2 > a.size() || !vh::parse_u64(a.substr(0, eq), tid) || tid > 255) return "bad-op";
+    sig.add_arg(TypeId(tid));
+    char k = a[eq + 1];
+    std::string rest = a.substr(eq + 2);
+    if (k == 'i') {
+      uint64_t v;
+      if (!vh::parse_hex(rest, v)) return "bad-op";
+      ops.push_back(Imm(int64_t(v)));
+    }
+    else if (k == 'r' || k == 'v') {
+      uint64_t st;
+      if (!vh::parse_u64(rest, st) || st > 255) return "bad-op";
+      Reg r;
+      e = cc._new_reg(Out<Reg>(r), TypeId(st), nullptr);
+      if (e != Error::kOk) return "err " + err_name(e);
+      if (k == 'r') {
+        if (!r.is_gp()) return "bad-op";
+        e = cc.emit(x86::Inst::kIdMov, r, Imm(int64_t(0x11 * (i + 1))));
+      }
+      else {
+        if (!r.is_vec()) return "bad-op";
+        e = r.size() > 16 ? cc.emit(x86::Inst::kIdVpxor, r, r, r) : cc.emit(x86::Inst::kIdPxor, r, r);
+      }
+      if (e != Error::kOk) return "err " + err_name(e);
+      ops.push_back(r);
+    }
+    else return "bad-op";
+  }
+  InvokeNode* inv = nullptr;
+  e = cc.add_invoke_node(Out<InvokeNode*>(inv), x86::Inst::kIdCall, Imm(uint64_t(0x10000)), sig);
+  if (e != Error::kOk) return "err " + err_name(e);
+  for (size_t i = 0; i < ops.size(); i++) {
+    if (ops[i].is_imm()) inv->set_arg(uint32_t(i), ops[i].as<Imm>()); else inv->set_arg(uint32_t(i), ops[i].as<Reg>());
+  }
+  cc.emit(x86::Inst::kIdNop);
+  if (lsize) { x86::Gp t = cc.new_gp32(); x86::Mem m = loc; m.set_size(1); cc.emit(x86::Inst::kIdMovzx, t, m); }
+  cc.end_func();
+  e = cc.finalize();
+  if (e != Error::kOk) return "err " + err_name(e);
+  const FuncFrame& fr = fn->frame();
+  char buf[160];
+  snprintf(buf, sizeof(buf), "ok %u %u %u %u %u %u %d %u |", fr.call_stack_size(), fr.call_stack_alignment(), fr.local_stack_offset(),
+           fr.local_stack_size(), fr.final_stack_size(), fr.final_stack_alignment(), fr.has_dynamic_alignment() ? 1 : 0,
+           inv->detail().arg_stack_size());
+  std::string out = buf;
+  int markers = 0;
+  std::map<uint32_t, int64_t> sp_ptr;    // GP register -> sp-relative address it holds (`lea reg, [sp + off]`: by-reference temporaries)
+  for (BaseNode* node = cc.first_node(); node && markers < 2; node = node->next()) {
+    if (!node->is_inst() && node->type() != NodeType::kInvoke) continue;
+    InstNode* in = node->as<InstNode>();
+    if (in->inst_id() == x86::Inst::kIdNop) { markers++; continue; }
+    if (!markers || node->type() == NodeType::kInvoke || in->inst_id() == x86::Inst::kIdCall || in->op_count() == 0) continue;
+    if (in->op(0).is_reg() && in->op(0).as<Reg>().is_gp()) {
+      uint32_t rid = in->op(0).as<Reg>().id();
+      sp_ptr.erase(rid);
+      if (in->inst_id() == x86::Inst::kIdLea && in->op_count() == 2 && in->op(1).is_mem()) {
+        const BaseMem& lm = in->op(1).as<BaseMem>();
+        if (lm.has_base_reg() && !lm.has_index() && lm.base_id() == x86::Gp::kIdSp) sp_ptr[rid] = lm.offset_lo32();
+      }
+      continue;
+    }
+    if (!in->op(0).is_mem()) continue;
+    const BaseMem& m = in->op(0).as<BaseMem>();
+    if (!m.has_base_reg() || m.has_index()) { out += " ?"; continue; }
+    int64_t off;
+    if (m.base_id() == x86::Gp::kIdSp) off = m.offset_lo32();
+    else if (sp_ptr.count(m.base_id())) off = sp_ptr[m.base_id()] + m.offset_lo32();
+    else continue;                                          // through the frame pointer / an unrelated pointer
+    uint32_t size = in->op(0).signature().size();
+    if (!size && in->op_count() > 1 && in->op(1).is_reg()) size = in->op(1).as<Reg>().size();
+    snprintf(buf, sizeof(buf), " %lld:%u", (long long)off, size);
+    out += buf;
+  }
+  return out;
+}
+
 static std::string step(const std::string& line) {
   std::vector<std::string> w = vh::words(line);
   if (!w.empty() && w[0] == "seq") return step_seq(w);
+  if (!w.empty() && w[0] == "civ") return step_civ(w);
   if (!w.empty() && w[0] == "ras") return step_ras(w);
   if (w.size() != 17 || w[0] != "frame") return "bad-op";
   uint64_t arch_i, cc_i, win, arg_stack, attrs, used[4], upd, lsz, lal, csz, cal, sareg;
